@@ -372,4 +372,51 @@ theorem startupBody_cases (f1 rest : Bytes) (h : 4 ≤ f1.length) :
   | [_, _], h => simp at h
   | [_, _, _], h => simp at h
 
+/-! small list facts kept as separate lemmas (so that the kernel checks them on small goals) -/
+
+theorem five_cons {α : Type} (b : List α) (h : ¬ b.length < 5) :
+    ∃ a0 a1 a2 a3 a4 tl, b = a0 :: a1 :: a2 :: a3 :: a4 :: tl := by
+  rcases b with _ | ⟨a0, _ | ⟨a1, _ | ⟨a2, _ | ⟨a3, _ | ⟨a4, tl⟩⟩⟩⟩⟩
+  all_goals first | exact ⟨_, _, _, _, _, _, rfl⟩ | (exfalso; apply h; simp)
+
+theorem four_cons {α : Type} (b : List α) (h : ¬ b.length < 4) :
+    ∃ a0 a1 a2 a3 tl, b = a0 :: a1 :: a2 :: a3 :: tl := by
+  rcases b with _ | ⟨a0, _ | ⟨a1, _ | ⟨a2, _ | ⟨a3, tl⟩⟩⟩⟩
+  all_goals first | exact ⟨_, _, _, _, _, rfl⟩ | (exfalso; apply h; simp)
+
+theorem split_eq5 (x0 x1 x2 x3 x4 : UInt8) (tl : Bytes) (n : Nat) :
+    x0 :: x1 :: x2 :: x3 :: x4 :: tl =
+      (x0 :: x1 :: x2 :: x3 :: x4 :: List.take n tl) ++ List.drop n tl := by
+  simp
+
+theorem split_eq4 (x0 x1 x2 x3 : UInt8) (tl : Bytes) (n : Nat) :
+    x0 :: x1 :: x2 :: x3 :: tl = (x0 :: x1 :: x2 :: x3 :: List.take n tl) ++ List.drop n tl := by
+  simp
+
+theorem frame_len5 (x0 x1 x2 x3 x4 : UInt8) (tl : Bytes) (L : Int) (h4 : 4 ≤ L)
+    (hl : ¬ tl.length + 4 < L.toNat) :
+    ((x0 :: x1 :: x2 :: x3 :: x4 :: List.take (L.toNat - 4) tl).length : Int) = 1 + L := by
+  have : (List.take (L.toNat - 4) tl).length = L.toNat - 4 := by
+    rw [List.length_take]; omega
+  simp only [List.length_cons, this]
+  omega
+
+theorem frame_len4 (x0 x1 x2 x3 : UInt8) (tl : Bytes) (L : Int) (h4 : 4 ≤ L)
+    (hl : ¬ tl.length + 4 < L.toNat) :
+    ((x0 :: x1 :: x2 :: x3 :: List.take (L.toNat - 4) tl).length : Int) = L := by
+  have : (List.take (L.toNat - 4) tl).length = L.toNat - 4 := by
+    rw [List.length_take]; omega
+  simp only [List.length_cons, this]
+  omega
+
+theorem take_len_ge4 (tl : Bytes) (L : Int) (h8 : 8 ≤ L) (hl : ¬ tl.length + 4 < L.toNat) :
+    4 ≤ (List.take (L.toNat - 4) tl).length := by
+  rw [List.length_take]; omega
+
+theorem declaredLen_cons (ty b1 b2 b3 b4 : UInt8) (tl : Bytes) :
+    declaredLen (ty :: b1 :: b2 :: b3 :: b4 :: tl) = some (i32OfBytes b1 b2 b3 b4) := rfl
+
+theorem declaredLenStartup_cons (b0 b1 b2 b3 : UInt8) (tl : Bytes) :
+    declaredLenStartup (b0 :: b1 :: b2 :: b3 :: tl) = some (i32OfBytes b0 b1 b2 b3) := rfl
+
 end VibeProof.Wire
